@@ -19,10 +19,20 @@ type State struct {
 	Alloc string            // allocation watermark (Int): every existing ref is <= Alloc
 	Locks map[string]int    // must-hold lock set: lock key -> 1 (write) / 2 (read)
 	Ghost map[string]string // ghost scalars
+	Held  map[string]*heldLock
+}
+
+type heldLock struct {
+	inv  *LockInv
+	mode int
+	locs []Loc
 }
 
 func (s *State) clone() *State {
-	n := &State{Cond: s.Cond, Alloc: s.Alloc, Heap: make(map[string]string, len(s.Heap)), Locks: map[string]int{}, Ghost: map[string]string{}}
+	n := &State{Cond: s.Cond, Alloc: s.Alloc, Heap: make(map[string]string, len(s.Heap)), Locks: map[string]int{}, Ghost: map[string]string{}, Held: map[string]*heldLock{}}
+	for k, v := range s.Held {
+		n.Held[k] = v
+	}
 	for k, v := range s.Heap {
 		n.Heap[k] = v
 	}
@@ -92,6 +102,8 @@ type VC struct {
 	usedContracts map[string]bool
 	usedLemmas    []*Lemma
 	proved   map[string][]string
+	gkinds   []guardKind
+	gkDone   bool
 	trace    []string
 }
 
@@ -390,6 +402,11 @@ func locWithin(sub, sup Loc) string {
 		return "false"
 	}
 	c := eq(sub.Ref, sup.Ref)
+	if sup.Ref == "*" {
+		c = "true"
+	} else if sub.Ref == "*" {
+		return "false"
+	}
 	if sup.Idx != "" {
 		if sub.Idx == "" {
 			return "false"
@@ -458,6 +475,18 @@ func (vc *VC) havocLoc(l Loc) {
 		mi := vc.eng.mapInfos[l.TK]
 		if mi == nil {
 			vc.fail("internal: unknown map kind %s", l.TK)
+		}
+		if l.Ref == "*" {
+			// every map of this kind (e.g. all the buckets of an expiration map)
+			vc.heapGet(mi.domName(), mi.domSort())
+			nd := vc.fresh(mi.domSort(), "hvdomall")
+			vc.assume(fmt.Sprintf("(= (select %s 0) ((as const (Array %s Bool)) false))", nd, mi.KSort))
+			vc.heapSet(mi.domName(), mi.domSort(), nd)
+			for j := range mi.VLeaves {
+				vc.heapGet(mi.valName(j), mi.valSort(j))
+				vc.heapSet(mi.valName(j), mi.valSort(j), vc.fresh(mi.valSort(j), "hvvalall"))
+			}
+			return
 		}
 		h := vc.heapGet(mi.domName(), mi.domSort())
 		vc.heapSet(mi.domName(), mi.domSort(), sto(h, l.Ref, vc.fresh("(Array "+mi.KSort+" Bool)", "hvdom")))
@@ -584,7 +613,7 @@ func (vc *VC) mergeStates(ss []*State) *State {
 	if len(ss) == 1 {
 		return ss[0].clone()
 	}
-	out := &State{Heap: map[string]string{}, Locks: map[string]int{}, Ghost: map[string]string{}}
+	out := &State{Heap: map[string]string{}, Locks: map[string]int{}, Ghost: map[string]string{}, Held: map[string]*heldLock{}}
 	var conds []string
 	for _, s := range ss {
 		conds = append(conds, s.Cond)
@@ -628,6 +657,9 @@ func (vc *VC) mergeStates(ss []*State) *State {
 		}
 		if all {
 			out.Locks[k] = v
+			if h, ok := ss[0].Held[k]; ok {
+				out.Held[k] = h
+			}
 		}
 	}
 	gn := map[string]bool{}
